@@ -184,9 +184,10 @@ FUNCS = ["kde_histogram", "kde_gauss", "kde_multivariate", "downsample_grid"]
 KDE_VARS = ["plain", "out", "resplit", "i8view", "strided", "negstride",
             "xout2d", "f4", "i8view-out"]
 DS_VARS = ["plain", "i8view", "strided", "negstride", "f4"]
-N_PARS = {"kde_histogram": 4, "kde_gauss": 1, "kde_multivariate": 3,
+N_PARS = {"kde_histogram": 8, "kde_gauss": 1, "kde_multivariate": 3,
           "downsample_grid": 24}
-BINS = [None, (5, 5), (7, 4), (12, 12)]
+# incl. tuples whose items concatenate identically ((5, 55) / (55, 5), (12, 3) / (1, 23))
+BINS = [None, (5, 5), (7, 4), (12, 12), (5, 55), (55, 5), (12, 3), (1, 23)]
 BWS = [None, (0.5, 0.5), (0.3, 1.2)]
 BURST_BASE = 100000
 
@@ -308,7 +309,7 @@ def _build_call(seed, fam, var, func, par, style):
         return (x, y, samples), kw
     extra_name, extra = None, None
     if func == "kde_histogram":
-        extra_name, extra = "bins", BINS[par % 4]
+        extra_name, extra = "bins", BINS[par % len(BINS)]
     elif func == "kde_multivariate":
         extra_name, extra = "bw", BWS[par % 3]
     if style == 0:
@@ -370,7 +371,7 @@ def _keys(func, par, style, args, kwargs):
     else:
         # the nan/inf wrapper passes events/xout/yout positionally; only the
         # extra argument (bins / bw) keeps its passing style
-        extra = BINS[par % 4] if func == "kde_histogram" else (
+        extra = BINS[par % len(BINS)] if func == "kde_histogram" else (
             BWS[par % 3] if func == "kde_multivariate" else None)
         how = "none" if extra is None else ("pos" if style == 0 else "kw")
         skey = (func, extra, None, how, hashlib.md5(raw).hexdigest())
@@ -597,7 +598,15 @@ def _st_scene(draw, maxsize):
     rep = draw(st.booleans())
     which = draw(st.sampled_from(
         ["sibling", "sibling", "cross", "mutate", "evict", "evict", "params",
-         "random"]))
+         "tuplepair", "random"]))
+    if which == "tuplepair":
+        # same data, tuple-valued `bins` whose items concatenate identically
+        # ((5, 55) / (55, 5), (12, 3) / (1, 23)): must not share a cache entry
+        var = draw(st.integers(0, 8))
+        pa, pb = draw(st.sampled_from([(4, 5), (5, 4), (6, 7), (7, 6)]))
+        sty = draw(st.sampled_from([0, 1, 2]))
+        return [["call", fam, var, 0, pa, sty, False],
+                ["call", fam, var, 0, pb, sty, rep]]
     if which == "sibling":
         a, b = draw(st.sampled_from(_SIB_DS if func == 3 else _SIB_KDE))
         return [["call", fam, a, func, par, style, rep],
